@@ -336,10 +336,27 @@ func namesToken(msg, tok string) bool {
 	if strings.Contains(msg, tok) {
 		return true
 	}
+	if len(msg) >= plan.MsgCap && len(tok) > 256 {
+		// the child reports at most MsgCap bytes of a message: a long token can only be
+		// recognised by its beginning
+		return namesToken(msg, tok[:utf8Prefix(tok, 128)])
+	}
 	for _, q := range []string{strconv.Quote(tok), strconv.QuoteToASCII(tok), strconv.QuoteToGraphic(tok)} {
 		if inner := q[1 : len(q)-1]; strings.Contains(msg, inner) {
 			return true
 		}
 	}
 	return false
+}
+
+// utf8Prefix returns the length of the longest prefix of s of at most n bytes that does not
+// cut a UTF-8 sequence.
+func utf8Prefix(s string, n int) int {
+	if n >= len(s) {
+		return len(s)
+	}
+	for n > 0 && s[n]&0xC0 == 0x80 {
+		n--
+	}
+	return n
 }
